@@ -318,6 +318,36 @@ func c03Oracle(c *runCtx, id int, nodes []*cNode, order []string, kind string) {
 	for a := range anc[len(nodes)-1] {
 		reachable[a] = true
 	}
+	// a history that is read must be well formed (C03: malformed histories are refused)
+	roots := 0
+	for i, n := range nodes {
+		if !reachable[i] {
+			continue
+		}
+		if len(n.parents) == 0 {
+			roots++
+			if n.pack.create == 0 {
+				c.violation(id, "C03/accepted-malformed", "a history whose root has no creation time was read instead of refused", kind)
+			}
+		}
+		if len(n.parents) > 1 && len(n.pack.ops) > 0 {
+			c.violation(id, "C03/accepted-malformed", "a history with a merge commit carrying operations was read instead of refused", kind)
+		}
+		if n.pack.version != bugFormatVersion || n.pack.edit == 0 {
+			c.violation(id, "C03/accepted-malformed", "a history with a wrong format version or a zero edit time was read instead of refused", kind)
+		}
+		for _, p := range n.parents {
+			pe := nodes[p].pack.edit
+			if pe >= n.pack.edit {
+				c.violation(id, "C03/accepted-malformed", fmt.Sprintf("a history whose clocks contradict ancestry (parent %d, child %d) was read instead of refused", pe, n.pack.edit), kind)
+			} else if len(n.parents) == 1 && n.pack.edit-pe > 1_000_000 {
+				c.violation(id, "C03/accepted-malformed", "a history with an implausible clock jump on a non-merge commit was read instead of refused", kind)
+			}
+		}
+	}
+	if roots > 1 {
+		c.violation(id, "C03/accepted-malformed", "a history with several roots was read instead of refused", kind)
+	}
 	total := 0
 	for i, n := range nodes {
 		if !reachable[i] {
